@@ -226,9 +226,41 @@ def run_history(hist):
             drain()
             ref.ev(e)
             check_safety(e)
+        key = state_key(tracker, ref, loop)
         loop.create_task(tracker.stop())
         loop.settle()
+    run_history.last_key = key
     return out, ref.out, safety
+
+
+def state_key(tracker, ref, loop):
+    """Canonical state after a history: what the reference knows (reception ages, blocking,
+    status) plus the corresponding fields read from the real tracker, all relative to now."""
+    now = loop.wall_now()
+    t = ref.t
+
+    def age(x):
+        return None if x is None else min(round(t - x, 3), MAXAGE + 1)
+
+    def rel(x):
+        return None if x is None else ("expired" if x <= t + 1e-9 else round(x - t, 3))
+
+    refkey = (ref.bok, ref.iok, age(ref.brx), age(ref.irx), min(round(t - ref.bts, 3), MAXAGE + 2), min(round(t - ref.its, 3), MAXAGE + 2),
+              rel(ref.until), ref.dur, ref.status)
+    try:
+        b = tracker._blocking_status
+        until = b.blocked_until
+        real = (
+            tracker._battery.last_msg_correct, tracker._inverter.last_msg_correct, tracker._last_status.name,
+            None if until is None else ("expired" if until <= now else round((until - now).total_seconds(), 3)),
+            b.last_blocking_duration.total_seconds(),
+        )
+    except AttributeError:
+        real = ()
+    extra = tuple(sorted((k, repr(v)) for k, v in vars(tracker._blocking_status).items()
+                         if k not in ("blocked_until", "last_blocking_duration", "min_duration", "max_duration", "_timedelta_zero"))) \
+        if hasattr(tracker, "_blocking_status") else ()
+    return repr((refkey, real, extra))
 
 
 def check_history(hist):
@@ -271,6 +303,53 @@ def shard(args) -> Acc:
             acc.sample({"history": hist, "notifications": got})
         for clause, detail in viol:
             acc.violation(Violation(clause, {"driver": "tracker", "history": [list(e) for e in hist]}, detail))
+    return acc
+
+
+# -- E2: breadth-first search with canonical-state merging ---------------------------
+
+
+def _bfs_item(hist):
+    got, viol = check_history(list(hist))
+    return hist, run_history.last_key, viol, [s for _, s in got]
+
+
+def bfs(tier, depth, workers) -> Acc:
+    """States are merged on ``state_key``; each state keeps its shortest history, which is
+    re-executed from scratch with every event appended (live objects cannot be copied)."""
+    import multiprocessing as mp
+
+    acc = Acc()
+    ev = alphabet(tier)
+    seen = {"<initial>"}
+    frontier = [()]
+    ctx = mp.get_context("fork")
+    with ctx.Pool(max(1, workers)) as pool:
+        for level in range(depth):
+            items = [h + (e,) for h in frontier for e in ev]
+            nxt = []
+            for hist, key, viol, statuses in pool.imap(_bfs_item, items, chunksize=16):
+                acc.transitions += 1
+                acc.evaluations += 1
+                for c in CLAUSES:
+                    acc.clauses[c] += 1
+                for clause, detail in viol:
+                    acc.violation(Violation(clause, {"driver": "tracker", "history": [list(e) for e in hist]}, detail))
+                if key not in seen:
+                    seen.add(key)
+                    nxt.append(hist)
+                    acc.traces += 1
+                    if "UNCERTAIN" in statuses:
+                        acc.nontrivial += 1
+                    if len(seen) % 400 == 1:
+                        acc.sample({"bfs_history": [list(e) for e in hist], "notifications": statuses})
+            frontier = nxt
+            acc.counters[f"bfs_new_states_level_{level + 1}"] = len(nxt)
+            if not nxt:
+                break
+    acc.states = len(seen)
+    acc.state_keys = set(seen)
+    acc.outcome(f"bfs depth={depth} states={len(seen)}")
     return acc
 
 
@@ -411,13 +490,16 @@ def run(tier: str, seed: int, workers: int):
 
         random.Random(seed).shuffle(shards)
     acc = pmap_acc(_dispatch, shards, workers)
+    acc.merge(bfs(tier, 10 if tier == "quick" else 13, workers))
     meta = {
         "rule": "every history over the alphabet {battery message: healthy / stale / bad component state / open relay / critical "
         "error / NaN capacity; inverter message: healthy / stale / bad state / critical error; silence 1, 4, 5 (exactly the "
         "maximum age), 6 s; set-power result succeeded / failed / not mentioned} to the stated depth, from a healthy start, "
         "from a cold start and after a failure; each history is one execution of the real tracker, compared step by step with "
         "the reference; non-trivial = the notification sequence contains UNCERTAIN or both WORKING and NOT_WORKING; plus the "
-        "real ComponentPoolStatusTracker over two batteries (11 events) and all 3-element ComponentPoolStatus queries",
+        "real ComponentPoolStatusTracker over two batteries (11 events) and all 3-element ComponentPoolStatus queries; plus a BFS "
+        "from the cold start to depth 10 (quick) / 13 (thorough) with states merged on (validity flags, reception and message ages, "
+        "blocking deadline relative to now, last blocking duration, last status) read from the reference AND the real tracker",
         "assumptions": [
             "max_data_age 5 s, blocking 1 s doubling to the cap of 4 s; fresh messages are stamped 'now' (message age = reception age)",
             "wall clock bound to the virtual clock with time_machine",
